@@ -482,6 +482,22 @@ def actionTable : List (String × String × String × String) := [
   ("RuleStorage.RetrieveRule", "cache", "w", "Lock(cacheMu)")
 ]
 
+/-! ### What the model treats as immutable after construction (compared with `Facts.fieldWriters`)
+
+  `Env` is a parameter of `step`, never changed by it: the three lookup tables and the sequential table
+  (`cands`, `resident`), the hosts table of the DNS engine (`hcands`), the directory of lists of the storage
+  (`truth`, `listOf`), the pointer to the request pool (the pool's CONTENT is the state `pool`), the engines'
+  pointers to each other.  `frozenTypes` are the Go struct types these live in; the obligations of
+  Props/C14.lean say that no function on a query path writes a field of them and that every writer is a
+  constructor or only ever called (inside the module) from constructors.  `RuleStorage.cache` is the
+  exception (state `cache`, lock table above). -/
+def frozenTypes : List String :=
+  ["CosmeticEngine", "DNSEngine", "DomainsTable", "Engine", "NetworkEngine", "RuleStorage", "SeqScanTable",
+   "ShortcutsTable", "cosmeticLookupTable"]
+
+/-- Writers outside construction the model knows about: none. -/
+def postConstructionWriters : List (String × String) := []
+
 /-! ### The variant WITHOUT the list mutex (non-vacuity of the granularity assumption)
 
   `FileRuleList.RetrieveRule` is `Seek(idx)` then `readLine` on ONE shared file position.  With the
